@@ -1271,6 +1271,7 @@ func (d *TD) chooseAction(plan *HandPlan, gs *pokerface.GameState, turn int) (st
 func (d *TD) playHand(plan *HandPlan) string {
 	d.spy.mu.Lock()
 	d.spy.Strength, d.spy.TieAll = plan.Strength, plan.TieAll
+	d.spy.Late = d.sc.Seed%2 == 0
 	d.spy.Fail = map[int]int{}
 	for k, v := range plan.FailOrd {
 		d.spy.Fail[k] = v
